@@ -399,7 +399,15 @@ fn resolve(sel: &Sel, v6: bool) -> R {
             v.sort();
             v.dedup();
             let digits: String = v.iter().map(|i| i.to_string()).collect();
-            R::Re(regex::Regex::new(&format!("^h[{digits}]$")).expect("regex"))
+            // the same host set written in different ways: anchored class, a pattern that matches only a fragment of
+            // each name, an unanchored alternation of the names (host names are h0..h3)
+            let form = (v.iter().sum::<usize>() + v.len()) % 3;
+            let re = match form {
+                0 => format!("^h[{digits}]$"),
+                1 => format!("[{digits}]"),
+                _ => v.iter().map(|i| format!("h{i}")).collect::<Vec<_>>().join("|"),
+            };
+            R::Re(regex::Regex::new(&re).expect("regex"))
         }
         Sel::All => R::Re(regex::Regex::new(".*").expect("regex")),
     }
